@@ -24,14 +24,13 @@ let rec zlen (l : 'a list) = List.length l
 
 (* ---- state of one case ---- *)
 let caps = ref caps_init
-let cfg = ref { g_dont_convert_rich = false; g_xvp = false; g_utf8 = false; g_ledhook = false }
+let cfg = ref { g_dont_convert_rich = false; g_xvp = false; g_utf8 = false; g_ledhook = false; g_reset_extclip = false }
 let mk_pst bpp depth tc rmax gmax bmax w h =
   { p_bpp = bpp; p_depth = depth; p_truecolour = tc; p_rmax = rmax; p_gmax = gmax; p_bmax = bmax;
     p_fbw = w; p_fbh = h; p_latest = []; p_named = []; p_scale_requested = false }
 let pst = ref (mk_pst (z_of_int 32) (z_of_int 24) true (z_of_int 255) (z_of_int 255) (z_of_int 255) (z_of_int 0) (z_of_int 0))
 let screen = ref None
 let fbw = ref 0 and fbh = ref 0
-let ignore_empty = ref false      (* the source ignores empty update requests (repair of F4) *)
 let pending : (upd_out * bool) Queue.t = Queue.create ()      (* predictions not yet matched; bool = scaled *)
 let leftover : z list ref = ref []
 let offset = ref 0
@@ -162,8 +161,8 @@ let () =
                    sc_name = name; sc_password = kvi toks "pw" = 1 } in
         screen := Some sc;
         cfg := { g_dont_convert_rich = kvi toks "dontconv" = 1; g_xvp = kvi toks "xvp" = 1; g_utf8 = kvi toks "utf8" = 1;
-                 g_ledhook = kvi toks "ledhook" = 1 };
-        fbw := kvi toks "w"; fbh := kvi toks "h"; ignore_empty := kvi toks "ignoreempty" = 1;
+                 g_ledhook = kvi toks "ledhook" = 1; g_reset_extclip = kvi toks "resetextclip" = 1 };
+        fbw := kvi toks "w"; fbh := kvi toks "h";
         pst := mk_pst (g "bpp") (g "depth") (kvi toks "tc" = 1) (g "rmax") (g "gmax") (g "bmax") (g "w") (g "h");
         print_endline "screen ok"
     | ["hs"; minor; choice; authok; reasonlen; hex] ->
@@ -189,8 +188,7 @@ let () =
            (rfbScaledCorrection); the acceptance is then computed by props/C03.py and passed as acc= *)
         let acc = match rest with
           | [a] when String.length a > 4 && String.sub a 0 4 = "acc=" -> a = "acc=1"
-          | _ -> fur_accepted (z_of_int !fbw) (z_of_int !fbh) (zi x) (zi y) in
-        let acc = acc && not (!ignore_empty && fur_empty (z_of_int !fbw) (z_of_int !fbh) (zi x) (zi y) (zi w) (zi h)) in
+          | _ -> fur_accepted (z_of_int !fbw) (z_of_int !fbh) (zi x) (zi y) (zi w) (zi h) in
         caps := on_fur !caps acc (incr <> "0");
         print_endline (caps_line "caps" !caps)
     | ["ev"; "ptrmoved"] -> caps := on_ptr_moved !caps; print_endline (caps_line "caps" !caps)
